@@ -68,3 +68,18 @@ Theorem to_json_sections_spec with_schema hash_matches :
   (In SSchemaHash (to_json_sections with_schema hash_matches) <-> with_schema = true) /\
   (In SSchema (to_json_sections with_schema hash_matches) <-> with_schema = true /\ hash_matches = false).
 Proof. destruct with_schema, hash_matches; cbn; intuition discriminate. Qed.
+
+(* whatever to_json ships has passed can_view, and the data section's instances are among it *)
+Theorem to_json_checked_viewable fuel succ roots viewable l : to_json_checked fuel succ roots viewable = Ok l ->
+  (forall o, In o l -> viewable o = true) /\ incl roots l.
+Proof.
+  unfold to_json_checked. destruct (forallb viewable (snd (to_json_objects fuel succ roots))) eqn:E; [|discriminate].
+  intros H. inversion H; subst. split; [now apply forallb_forall | apply to_json_roots].
+Qed.
+Theorem to_json_checked_refuses fuel succ roots viewable : (exists o, In o roots /\ viewable o = false) ->
+  to_json_checked fuel succ roots viewable = Err 5%nat.
+Proof.
+  intros (o & Ho & Hv). unfold to_json_checked.
+  destruct (forallb viewable (snd (to_json_objects fuel succ roots))) eqn:E; [|reflexivity].
+  rewrite forallb_forall in E. rewrite (E o) in Hv by (now apply to_json_roots). discriminate.
+Qed.
